@@ -44,7 +44,7 @@ theorem div_guard_eq (it : Int) (k : Nat) : div_guard it (k : Int) = evalGuard {
 prologue of `Engine.train` that touch `.grad`, optimiser, scheduler or scaler = the table `C16E.history` interprets -/
 theorem between_table_eq : Gen.C16.betweenTable = C16E.table := by decide
 
-/-- … i.e. none, except the prologue's `optimizer.zero_grad()` -/
+/-- … i.e. none, except the prologue's `optimizer.zero_grad()` — which must be there -/
 theorem between_table_wf : C16E.wfBetween Gen.C16.betweenTable = true := by decide
 
 /-- first-example logging and `start_with_validation` precede `_do_iteration`; checkpoint, log write and validation follow
@@ -82,6 +82,9 @@ theorem guard_core16 (it c total : Nat) :
 theorem val_guard_eq (it vs total : Nat) : val_guard (it : Int) (vs : Int) (total : Int) = C16E.valGuard it vs total := by
   simp only [val_guard, C16E.valGuard]
   exact guard_core16 it vs total
+
+/-- `clip_grad_norm_` is called once, on the flat list of the parameters of `self.model` and of all `self.models` -/
+theorem clip_form_eq : Gen.C16.clipForm = C16E.clipForm := by decide
 
 /-! ### mixed precision -/
 
